@@ -67,6 +67,10 @@ void checkPrt(Ctx& ctx, const ref::RPrt& r, const std::string& key, bool canonic
 	ArtFile a;
 	auto o = mc::guarded([&] { a = prtc::readArt(bytes); });
 	ctx.transition();
+	if (!canonicalInput) ctx.count("roundtrip/non-canonical-headers-tried");
+	// a file whose palette section headers are not the canonical ones need not be accepted (the statement speaks of the inputs the
+	// reader accepts, and of reproducing those with canonical headers)
+	if (o.cls != 'R' && !canonicalInput) { ctx.count("roundtrip/non-canonical-headers-refused"); return; }
 	if (o.cls != 'R') { bad("well-formed-file-rejected", o.what); return; }
 	std::string d = prtc::compare(a, r);
 	if (!d.empty()) { bad("parsed-structure-differs", d); return; }
